@@ -278,6 +278,12 @@ def gen_grid(rng):
             if p == 2 and plateau_in_difference(objs[a], objs[b], g0, g1, n): p = 1
             lines.append('gdist %d %d %d' % (a, b, p))
         else: lines.append('gip %d %d' % (rng.choice(ok), rng.choice(ok)))
+    # sup distance against a negatively scaled landscape, in both argument orders (extra levels of either argument count with their absolute value)
+    ok = [o_ for o_ in objs if o_ not in tainted]
+    if len(ok) >= 2 and rng.random() < 0.6:
+        a, b = rng.sample(ok, 2); c = [q for q in range(6) if q not in (a, b)][0]
+        lines.append('gscale %d %d -1 0' % (c, b)); objs[c] = objs[b].map(lambda p: -p); sizes[c] = sizes[b]; tainted.discard(c)
+        lines += ['gdist %d %d 0' % (a, c), 'gdist %d %d 0' % (c, a)]
     return lines
 
 
